@@ -92,6 +92,30 @@ except ImportError:
         return ref._eval_type(globalns, localns)  # noqa
 
 
+def own_forward_refs(args: tuple) -> tuple:
+    """
+    typing caches subscripted generics process-wide, so the ForwardRef object inside Optional['Name']
+    is shared by every module that spells the same annotation (and typing stores the evaluated class on it)
+    work on private copies, so that evaluating a name for one class can never resolve it
+    for a same-named class of another module
+    """
+    if not any(isinstance(arg, ForwardRef) for arg in args):
+        return args
+    result = []
+    for arg in args:
+        if isinstance(arg, ForwardRef):
+            ref = ForwardRef(arg.__forward_arg__)
+            for attr in ("__forward_is_argument__", "__forward_is_class__", "__forward_module__"):
+                if hasattr(arg, attr):
+                    try:
+                        setattr(ref, attr, getattr(arg, attr))
+                    except AttributeError:
+                        pass
+            arg = ref
+        result.append(arg)
+    return tuple(result)
+
+
 if sys.version_info < (3, 10):
 
     def is_union(tp: Optional[Type[Any]]) -> bool:
